@@ -407,8 +407,8 @@ func c15Run(c *Ctx, idx int) CaseResult {
 			if m != "" {
 				add("after-stream", strings.ReplaceAll(what, " ", "-"), "List after a %s: %s", what, m)
 			}
-		case <-time.After(2 * wd):
-			add("stream-not-closed", "List,after-"+strings.ReplaceAll(what, " ", "-"), "List called after a %s did not answer within %v (connection or lock not released)", what, 2*wd)
+		case <-time.After(5 * wd):
+			add("stream-not-closed", "List,after-"+strings.ReplaceAll(what, " ", "-"), "List called after a %s did not answer within %v (connection or lock not released)", what, 5*wd)
 		}
 	}
 	// cancelled consumers: the caller reads k results, cancels its context and keeps draining — the stream must still
@@ -510,8 +510,8 @@ func c15Run(c *Ctx, idx int) CaseResult {
 			if m != "" {
 				add("stream-not-closed", "Search,no-filter", "Search without any filter: %s", m)
 			}
-		case <-time.After(2 * wd):
-			add("stream-not-closed", "Search,no-filter,no-answer", "Search without any filter did not answer within %v", 2*wd)
+		case <-time.After(5 * wd):
+			add("stream-not-closed", "Search,no-filter,no-answer", "Search without any filter did not answer within %v", 5*wd)
 		}
 		stillAnswers("refused Search")
 	}
@@ -578,9 +578,9 @@ func c15Run(c *Ctx, idx int) CaseResult {
 		go func() { h.Vault.Close(ctx); close(closed) }()
 		select {
 		case <-closed:
-		case <-time.After(wd):
+		case <-time.After(4 * wd):
 			if len(res.Viols) == 0 {
-				add("stream-not-closed", "Close", "closing the store did not return within %v after all streams were drained (a connection was not given back)", wd)
+				add("stream-not-closed", "Close", "closing the store did not return within %v after all streams were drained (a connection was not given back)", 4*wd)
 			}
 		}
 	}
